@@ -125,7 +125,7 @@ type Sim struct {
 
 	// goroutines
 	gmu      sync.Mutex
-	gs       map[int64]*G
+	gs       []*G // linear registry: runtime map operations are visible to the race detector, our mutex is not
 	pendingG []*G // seen by hooks, not yet named by the scheduler
 	nameSeq  map[string]int
 
@@ -174,7 +174,6 @@ func New(cfg Config) *Sim {
 		epoch:    time.Now(),
 		rng:      rand.New(rand.NewSource(cfg.Seed)),
 		aux:      rand.New(rand.NewSource(cfg.Seed ^ 0x5eed5eed)),
-		gs:       map[int64]*G{},
 		nameSeq:  map[string]int{},
 		curStep:  map[int]int{},
 		mus:      map[any]*muState{},
@@ -275,7 +274,7 @@ func (s *Sim) Run() {
 
 		en := s.enabled()
 		if len(en) == 0 {
-			if s.tasksDone == s.tasks && s.tasks > 0 {
+			if s.tasksDone == s.tasks && s.tasks > 0 && !s.parkedWillWake() {
 				break
 			}
 			t, ok := s.nextTime()
@@ -308,6 +307,17 @@ func (s *Sim) sleepUntil(t time.Duration) {
 		s.accept(r)
 	}
 	s.now = time.Since(s.epoch)
+}
+
+// parkedWillWake: some parked goroutine becomes runnable by the passage of time alone
+// (a sleep, a read or connect with a deadline).
+func (s *Sim) parkedWillWake() bool {
+	for _, r := range s.parked {
+		if w, has := r.wakeTime(); has && w > s.now {
+			return true
+		}
+	}
+	return false
 }
 
 func (s *Sim) nextTime() (time.Duration, bool) {
@@ -385,7 +395,7 @@ func (s *Sim) enabled() []choice {
 	}
 	for _, e := range s.events {
 		if e.at <= s.now {
-			en = append(en, choice{key: fmt.Sprintf("e:%020d", e.seq), ev: e})
+			en = append(en, choice{key: "e:" + pad(int64(e.seq), 20), ev: e})
 		}
 	}
 	if len(en) == 0 {
@@ -523,9 +533,18 @@ func goid() int64 {
 func (s *Sim) register(name string, task int) *G {
 	g := &G{ID: goid(), Name: name, Task: task}
 	s.gmu.Lock()
-	s.gs[g.ID] = g
+	s.gs = append(s.gs, g)
 	s.gmu.Unlock()
 	return g
+}
+
+func (s *Sim) lookupG(id int64) *G {
+	for _, g := range s.gs {
+		if g.ID == id {
+			return g
+		}
+	}
+	return nil
 }
 
 // me returns the record of the calling goroutine, creating an unnamed one (to be named by the
@@ -533,7 +552,7 @@ func (s *Sim) register(name string, task int) *G {
 func (s *Sim) me() *G {
 	id := goid()
 	s.gmu.Lock()
-	g := s.gs[id]
+	g := s.lookupG(id)
 	s.gmu.Unlock()
 	if g != nil {
 		return g
@@ -553,7 +572,12 @@ func (s *Sim) me() *G {
 		rest := st[i+len("created by "):]
 		line, after, _ := strings.Cut(rest, "\n")
 		fn, par, _ := strings.Cut(line, " in goroutine ")
-		fmt.Sscanf(par, "%d", &g.parent)
+		for _, ch := range par {
+			if ch < '0' || ch > '9' {
+				break
+			}
+			g.parent = g.parent*10 + int64(ch-'0')
+		}
 		loc := strings.TrimSpace(after)
 		if j := strings.IndexByte(loc, ' '); j >= 0 {
 			loc = loc[:j]
@@ -567,7 +591,7 @@ func (s *Sim) me() *G {
 		g.site = fn + "@" + loc
 	}
 	s.gmu.Lock()
-	s.gs[id] = g
+	s.gs = append(s.gs, g)
 	s.pendingG = append(s.pendingG, g)
 	s.gmu.Unlock()
 	return g
@@ -586,7 +610,7 @@ func (s *Sim) nameGoroutines() {
 		var next []*G
 		progress := false
 		sort.SliceStable(pend, func(i, j int) bool {
-			pi, pj := s.gs[pend[i].parent], s.gs[pend[j].parent]
+			pi, pj := s.lookupG(pend[i].parent), s.lookupG(pend[j].parent)
 			ni, nj := "?", "?"
 			if pi != nil {
 				ni = pi.Name
@@ -603,7 +627,7 @@ func (s *Sim) nameGoroutines() {
 			return pend[i].ID < pend[j].ID
 		})
 		for _, g := range pend {
-			p := s.gs[g.parent]
+			p := s.lookupG(g.parent)
 			if p != nil && p.Name == "" {
 				next = append(next, g)
 				continue
@@ -616,7 +640,7 @@ func (s *Sim) nameGoroutines() {
 			k := base + "/" + g.site
 			n := s.nameSeq[k]
 			s.nameSeq[k] = n + 1
-			g.Name = fmt.Sprintf("%s#%d", k, n)
+			g.Name = k + "#" + itoa(int64(n))
 			progress = true
 		}
 		if !progress {
@@ -624,7 +648,7 @@ func (s *Sim) nameGoroutines() {
 				k := "orphan/" + g.site
 				n := s.nameSeq[k]
 				s.nameSeq[k] = n + 1
-				g.Name = fmt.Sprintf("%s#%d", k, n)
+				g.Name = k + "#" + itoa(int64(n))
 			}
 			break
 		}
